@@ -1136,24 +1136,58 @@ func c01ArrayIndex(c *core.Ctx, r *core.Report) {
 // ---------------------------------------------------------------------------------------------- backfill
 
 func c01Backfill(c *core.Ctx, r *core.Report) {
-	fn := c.Fn(pkgWriter, "SegStore.doLogEventFilling")
+	entry := c.Fn(pkgWriter, "SegStore.doLogEventFilling")
 	colsInBlock := c.Field(pkgWriter, "WipBlock.columnsInBlock")
 	name := "writer.SegStore.doLogEventFilling"
-	// the loop ranging over wipBlock.columnsInBlock
-	var loop *core.Loop
-	for _, l := range core.Loops(fn) {
-		for _, in := range l.Header.Instrs {
-			nx, ok := in.(*ssa.Next)
-			if !ok {
+	// the loop ranging over wipBlock.columnsInBlock: in the function itself or in a helper it always calls
+	findLoop := func(fn *ssa.Function) *core.Loop {
+		for _, l := range core.Loops(fn) {
+			for _, in := range l.Header.Instrs {
+				nx, ok := in.(*ssa.Next)
+				if !ok {
+					continue
+				}
+				rg, ok := nx.Iter.(*ssa.Range)
+				if !ok {
+					continue
+				}
+				if ld, ok := rg.X.(*ssa.UnOp); ok {
+					if fa, ok := ld.X.(*ssa.FieldAddr); ok && core.FieldOfAddr(fa) == colsInBlock {
+						return l
+					}
+				}
+			}
+		}
+		return nil
+	}
+	fn := entry
+	loop := findLoop(entry)
+	if loop == nil {
+		for _, ci := range core.CallsIn(entry) {
+			callee := ci.Common().StaticCallee()
+			if callee == nil || core.FnPkgPath(callee) != core.ModPath+"/"+pkgWriter {
 				continue
 			}
-			rg, ok := nx.Iter.(*ssa.Range)
-			if !ok {
-				continue
-			}
-			if ld, ok := rg.X.(*ssa.UnOp); ok {
-				if fa, ok := ld.X.(*ssa.FieldAddr); ok && core.FieldOfAddr(fa) == colsInBlock {
-					loop = l
+			if l := findLoop(callee); l != nil {
+				// the helper must be called before every success return
+				ok := true
+				for _, ret := range core.Returns(entry) {
+					if core.ReturnSuccess(ret) == core.No {
+						continue
+					}
+					reached := false
+					for _, cj := range core.CallsIn(entry) {
+						if cj.Common().StaticCallee() == callee && core.InstrDominates(cj, ret) {
+							reached = true
+						}
+					}
+					if !reached {
+						ok = false
+					}
+				}
+				if ok {
+					fn, loop = callee, l
+					name = "writer." + strings.TrimPrefix(shortFn(callee), "writer.")
 				}
 			}
 		}
@@ -1220,7 +1254,9 @@ func c01Backfill(c *core.Ctx, r *core.Report) {
 		}
 		for _, s := range b.Succs {
 			if s == loop.Header {
-				leak = b.Instrs[len(b.Instrs)-1]
+				if !skipRecordsError(fn, loop, b) {
+					leak = b.Instrs[len(b.Instrs)-1]
+				}
 				continue
 			}
 			if loop.Body[s] {
@@ -1728,4 +1764,59 @@ func c01LenBound(c *core.Ctx, r *core.Report) {
 		}
 	}
 	r.Floor("BOUND", "16-bit length narrowings in the event parser", n, 1)
+}
+
+// skipRecordsError: the back edge b -> header carries a non-nil value into the loop-carried error that the
+// function returns (the iteration was skipped, but the function will report the failure).
+func skipRecordsError(fn *ssa.Function, loop *core.Loop, b *ssa.BasicBlock) bool {
+	idx := core.ErrResultIndex(fn)
+	if idx < 0 {
+		return false
+	}
+	for _, ret := range core.Returns(fn) {
+		phi, ok := core.RetResult(ret, idx).(*ssa.Phi)
+		if !ok || phi.Block() != loop.Header {
+			return false
+		}
+		for i, p := range loop.Header.Preds {
+			if p != b {
+				continue
+			}
+			v := phi.Edges[i]
+			switch x := v.(type) {
+			case *ssa.Call:
+				if f := core.CalleeFunc(x); f != nil && f.Pkg() != nil && (f.Pkg().Path() == "fmt" && f.Name() == "Errorf" || f.Pkg().Path() == "errors" && f.Name() == "New") {
+					continue
+				}
+				return false
+			case *ssa.MakeInterface:
+				continue
+			case *ssa.Phi:
+				if x != phi {
+					return false
+				}
+				// carried unchanged: only on the edge where it is known non-nil
+				ifi, ok := core.LastIf(b)
+				if !ok {
+					return false
+				}
+				bo, ok := ifi.Cond.(*ssa.BinOp)
+				if !ok || bo.X != ssa.Value(phi) || !core.IsNilConst(bo.Y) {
+					return false
+				}
+				nonNilSucc := b.Succs[1]
+				if bo.Op == token.NEQ {
+					nonNilSucc = b.Succs[0]
+				} else if bo.Op != token.EQL {
+					return false
+				}
+				if nonNilSucc != loop.Header {
+					return false
+				}
+			default:
+				return false
+			}
+		}
+	}
+	return true
 }
